@@ -54,13 +54,13 @@ pub fn gen_spec(ch: &mut Ch) -> WorldSpec {
                 match kind_sel {
                     0 => {
                         t.method = if ch.chance(1, 5, "t.fetch") { 5 } else { 1 };
-                        let early = if ch.chance(2, 5, "t.early") { Some(ch.below(7, "t.early.szx") as u8) } else { None };
+                        let early = if ch.chance(2, 5, "t.early") { Some(ch.below(8, "t.early.szx") as u8) } else { None };
                         let reduce = if ch.chance(1, 4, "t.reduce") { Some((1 + ch.below(3, "t.reduce.after") as u32, ch.below(6, "t.reduce.szx") as u8)) } else { None };
                         t.kind = TKind::Download { early, reduce };
                         t.probe = match ch.weighted(&[40, 30, 30], "t.probe") {
                             0 => Probe::None,
                             1 => Probe::NoBlock2,
-                            _ => Probe::Block2Zero(ch.below(7, "t.probe.szx") as u8),
+                            _ => Probe::Block2Zero(ch.below(8, "t.probe.szx") as u8),
                         };
                         if focus.is_none() || ch.chance(1, 3, "focus") {
                             focus = Some((request_overhead(&t, None, Some((15, false, 6))), response_overhead(token_len, &res.opts, false)));
